@@ -34,7 +34,7 @@ func init() {
 			"the Schema post-processing grid format × example (flat and nested); " +
 			"then a seeded random stream of nested documents (depth ≤ 4; 400 per kind quick, 8000 thorough) of every kind, whole v3 documents through Loader.LoadFromData (800 / 20000; components that are chains of references, paths that refer to other paths) and whole v2 documents. " +
 			"The Loader route, directed (c03loader.go): every reference site of every component kind (schemas in properties / items / allOf / anyOf / oneOf / not / additionalProperties / parameter / header / media type; parameters of path items and operations; headers of responses and encodings; request bodies; responses; security schemes; examples; links; callbacks) × " +
-			"{direct, chain of 2, chain of 3, fragment in another file, chain inside another file, chain through another file back into the root, whole other file} with IsExternalRefsAllowed and an in-memory ReadFromURIFunc; path-item references: single, chains of 2 and 3 in either declaration order, shared target, templated path, in a callback, whole other file, other file that is itself a reference, fragment of another file, chain inside another file, a referenced path item whose own callback refers back to it (key met again while in progress: directly, through a chain, from two referrers); wrappers met again while in progress: self-referring and mutually referring schemas (properties, items, additionalProperties, allOf, through an alias), a callback component used by its own operation. " +
+			"{direct, chain of 2, chain of 3, fragment in another file, chain inside another file, chain through another file back into the root, whole other file} with IsExternalRefsAllowed and an in-memory ReadFromURIFunc; path-item references: single, chains of 2 and 3 in either declaration order, shared target, templated path, in a callback, whole other file, other file that is itself a reference, fragment of another file, chain inside another file, a referenced path item whose own callback refers back to it (key met again while in progress: directly, through a chain, from two referrers); wrappers met again while in progress: self-referring and mutually referring schemas (properties, items, additionalProperties, allOf, through an alias), a callback component used by its own operation. Keys, directed: every map-like container (Responses, Paths, Callback) and the named maps (components collections, properties, encoding, examples, content, headers, v2 definitions / responses) × keys in unusual but legal spellings (lower / mixed-case status ranges, default vs Default, spaces, percent and ~ escapes, quotes, non-ASCII, numeric- and keyword-looking keys) alone, pairs / triples of keys that differ only in case or escaping, and the response / path keys in whole documents through the Loader. " +
 			"Each of them through three entry points: LoadFromData(WithPath), LoadFromFile on real files in a fresh directory, json/yaml.Unmarshal + ResolveRefsIn. For these the loaded document is serialised and compared with the input (every $ref text as written, nothing of the resolved value). One case compares the harness's registry of kinds with the object kinds of the regenerated table. " +
 			"A case is non-trivial when the model reports a branch (a kind visited, a field kept, a default dropped, a required key added, an extension or unknown key kept, a reference taken, siblings dropped, …); the branch spec.normal counts the cases in deep normal form, excl.notClean those outside the scope of the deep theorems.",
 		Exhaustive: true,
@@ -1011,6 +1011,8 @@ func genC03(ctx *hx.Ctx, emit func(hx.Case)) {
 	}
 	// 2b. the Loader route, directed: every reference site × every reference form, path-item references
 	genC03Loader(ctx, emit)
+	// 2c. keys of the map-like containers and named maps in unusual but legal spellings
+	genC03Keys(ctx, emit)
 	// 3. whole v3 documents through the loader (references resolvable)
 	m := 800
 	if ctx.Thorough() {
